@@ -195,6 +195,28 @@ def gene_cases(tier, pick=lambda: True):
                 yield "zerolen", gene_spec(N_MENU, [(zero_tx if k == "z" else menu_tx)(i, f) for (k, i), f in zip(kids, fv)], pk)
 
 
+    # MANY children (a short-cut over the children list needs more than three): the menu cycled from every rotation, no flag /
+    # one flag at the first, a middle, the last position / two flags; identical structures tie in CDS length and in length
+    for k in MANY_K[tier]:
+        for rot in range(len(TX_MENU)):
+            idxs = [(rot + i) % len(TX_MENU) for i in range(k)]
+            for fv in many_flag_vectors(k):
+                for pk in ("chrom", "none"):
+                    if pick():
+                        yield "many", gene_spec(N_MENU, [menu_tx(i, f) for i, f in zip(idxs, fv)], pk)
+
+
+MANY_K = {"quick": (5, 9, 20), "thorough": (4, 5, 6, 7, 9, 13, 20, 33)}
+
+
+def many_flag_vectors(k):
+    out = [tuple([None] * k)]
+    for p_ in (0, k // 2, k - 1):
+        out.append(tuple(True if i == p_ else None for i in range(k)))
+    out.append(tuple(True if i in (1, k - 2) else None for i in range(k)))
+    return out
+
+
 def fc_cases(tier, pick=lambda: True):
     w = WORLD[tier]
     S = feat_structs(w["Nf"], w["kf"])
@@ -225,6 +247,15 @@ def fc_cases(tier, pick=lambda: True):
         for pk in ("chrom", "none"):
             if pick():
                 yield "zerolen", fc_spec(N_MENU, [(zero_feat if k == "z" else menu_feat)(i, f) for (k, i), f in zip(kids, fv)], pk)
+
+
+    for k in MANY_K[tier]:
+        for rot in range(len(FEAT_MENU)):
+            idxs = [(rot + i) % len(FEAT_MENU) for i in range(k)]
+            for fv in many_flag_vectors(k):
+                for pk in ("chrom", "none"):
+                    if pick():
+                        yield "many", fc_spec(N_MENU, [menu_feat(i, f) for i, f in zip(idxs, fv)], pk)
 
 
 # ---- annotation collections -----------------------------------------------------------------------------------------------
@@ -297,6 +328,19 @@ def ac_cases(tier, pick=lambda: True):
                                     yield "ac", {"agg": "ac", "N": AC_N, "parent": pk, "bounds": list(b), "members": members, "variants": [list(v) for v in vs]}
 
 
+def ac_many_cases(tier, pick=lambda: True):
+    """annotation collections holding ALL 20 member descriptors (and the first 9 / 13), in four input orders"""
+    mem = ac_members()
+    for n in (9, 13, len(mem)):
+        base = list(range(n))
+        for order in (base, base[::-1], base[7:] + base[:7], base[::2] + base[1::2]):
+            genes = [mem[m] for m in order if mem[m]["agg"] == "gene"]
+            fcs = [mem[m] for m in order if mem[m]["agg"] == "fc"]
+            for pk in ("none", "chrom", list(AC_CHUNK)):
+                if pick():
+                    yield "ac", {"agg": "ac", "N": AC_N, "parent": pk, "bounds": [None, None], "members": genes + fcs, "variants": [list(v) for v in AC_VARIANTS[::-1]]}
+
+
 class Pick:
     """shard selector: true for every n-th case, counted over the whole enumeration"""
 
@@ -316,3 +360,4 @@ def all_cases(tier, i=0, n=1):
     for part, spec in fc_cases(tier, pick):
         yield "fc-" + part, spec
     yield from ac_cases(tier, pick)
+    yield from ac_many_cases(tier, pick)
